@@ -111,7 +111,7 @@ def _convert(seed):
             ev = [
                 {"e": "Volumes", "dvf_ppm": ppm(vf1, vf0), "dvp_ppm": ppm(vp1, vp0)},
                 {"e": "Radii"},
-                {"e": "SolvePipeK", "oc": calls[0]["oc"], "dev_ppm": ppm(rfp1, rc + rp)},
+                {"e": "SolvePipeK", "oc": calls[0]["oc"], "dev_ppm": ppm(rfp1, rc + rp), "kind": kind},
                 {"e": "SolveGroutK", "oc": calls[1]["oc"], "rb_dev_ppm": ppm(rb1, rb0)},
                 {"e": "End"},
             ]
@@ -195,7 +195,7 @@ def run() -> int:
 
 def selfcheck_binding():
     """Corrupt one recorded field / drop one event and expect the trace validator to reject (used by ./check selftest)."""
-    good = [{"e": "Volumes", "dvf_ppm": 0, "dvp_ppm": 0}, {"e": "Radii"}, {"e": "SolvePipeK", "oc": "Bracketed", "dev_ppm": 3},
+    good = [{"e": "Volumes", "dvf_ppm": 0, "dvp_ppm": 0}, {"e": "Radii"}, {"e": "SolvePipeK", "oc": "Bracketed", "dev_ppm": 3, "kind": "COAXIAL"},
             {"e": "SolveGroutK", "oc": "Bracketed", "rb_dev_ppm": 40}, {"e": "End"}]
     bad1 = json.loads(json.dumps(good))
     bad1[3]["rb_dev_ppm"] = 4000
